@@ -4,7 +4,7 @@
    the commit of Model/Create.v).  The manifest *file name* (NNNN_<folder>_<UTC>Z.mhl) is not modelled: it is checked on
    the implementation by the oracle. *)
 From Coq Require Import Sorting.Sorted.
-From MHL Require Import Model.Commands Gen.Generated Proofs.BaseFacts Proofs.CommitFacts Proofs.HistFacts Proofs.FreshFacts Model.Naming Proofs.NamingFacts.
+From MHL Require Import Model.Commands Gen.Generated Proofs.BaseFacts Proofs.CommitFacts Proofs.HistFacts Proofs.FreshFacts Model.Naming Proofs.NamingFacts Proofs.TreeFacts Proofs.ReloadFacts.
 
 Theorem C06_commit_writes_after_commit : forall C cdig ser (old : hist C) doc p par,
   mkHist C (h_files C old ++ [mkMfile C (g_no doc) (ser doc) doc])
@@ -58,6 +58,83 @@ Theorem C06_create_appends_one_generation : forall Hb matches C cdig ser old kid
     (exists new, h_files C (after_commit C cdig ser old doc) = h_files C old ++ [new]).
 Proof. exact create_flat_appends. Qed.
 Print Assumptions C06_create_appends_one_generation.
+
+(* ANY NESTING OF HISTORIES, as the next command sees it.  `load` is what every command does first: find the history of
+   the folder and of every folder below it, check each chain, read each generation (children before parents, siblings by
+   name).  After a create run that was not aborted -- folder mode or -sf, any tree, any number of nested histories, any
+   session -- loading the tree the run leaves succeeds and yields the same histories in the same order:
+     - a history the run did not write into reads back exactly as before (same generations, same chain);
+     - a history the run wrote into reads back with the generations it had, in their order, followed by exactly the
+       document written (`grown`: gens ++ [doc], chain ++ [one entry: number, file and digest of that document]);
+     - every document written carries the number latest+1 of the history it went into.
+   So no existing generation is renumbered, replaced or dropped in any history, and each run adds at most one
+   generation per history.  (`fin w x` looks x's root up in the written list w: `grown x doc` when found, x otherwise.) *)
+Theorem C06_next_command_reads_one_more_generation : forall Hb matches C cdig ser h0 kids hs req no_dh dr ip ifl t' o,
+  wf_tree C (Dir h0 kids) -> load C cdig (Dir h0 kids) = inl hs ->
+  create_folder Hb matches C cdig ser (Dir h0 kids) req no_dh dr ip ifl = (t', o) -> o_outcome o <> Abort ->
+  exists hs', load C cdig t' = inl hs' /\ one_more C cdig ser hs (o_written o) hs' /\ wf_tree C t' /\ exists h' kids', t' = Dir h' kids'.
+Proof. exact create_folder_then_reload. Qed.
+Print Assumptions C06_next_command_reads_one_more_generation.
+Theorem C06_next_command_reads_one_more_generation_sf : forall Hb matches C cdig ser h0 kids hs req sf ip ifl t' o,
+  wf_tree C (Dir h0 kids) -> load C cdig (Dir h0 kids) = inl hs ->
+  create_sf Hb matches C cdig ser (Dir h0 kids) req sf ip ifl = (t', o) -> o_outcome o <> Abort ->
+  exists hs', load C cdig t' = inl hs' /\ one_more C cdig ser hs (o_written o) hs' /\ wf_tree C t' /\ exists h' kids', t' = Dir h' kids'.
+Proof. exact create_sf_then_reload. Qed.
+Print Assumptions C06_next_command_reads_one_more_generation_sf.
+(* ... AND OVER ANY NUMBER OF RUNS: any sequence of create runs (folder mode and -sf in any mix, any formats, options,
+   patterns, any nesting), none of them aborted.  Every later load succeeds and shows, for each history that existed at
+   the start (`ext x y`: y is x after zero or more added generations): the same root and parent, the old generations as a
+   prefix in their order, the old chain entries as a prefix in their order, and after them one chain entry per added
+   generation carrying its number and the digest of its document, the added generations numbered consecutively from
+   latest+1.  Nothing that was there is ever renumbered, replaced, reordered or dropped. *)
+Theorem C06_runs_only_append : forall Hb matches C cdig ser rs h0 kids hs,
+  wf_tree C (Dir h0 kids) -> load C cdig (Dir h0 kids) = inl hs ->
+  Forall (fun o => o_outcome o <> Abort) (snd (runs Hb matches C cdig ser (Dir h0 kids) rs)) ->
+  exists hs', load C cdig (fst (runs Hb matches C cdig ser (Dir h0 kids) rs)) = inl hs' /\ Forall2 (ext C cdig ser) hs hs'.
+Proof. exact runs_only_append. Qed.
+Print Assumptions C06_runs_only_append.
+Theorem C06_ext_means : forall C cdig ser x y, ext C cdig ser x y ->
+  lh_root y = lh_root x /\ lh_parent y = lh_parent x /\
+  exists more morec, lh_gens y = lh_gens x ++ more /\ lh_chain y = lh_chain x ++ morec /\
+    map Tree.ce_file morec = map g_no more /\ map Tree.ce_digest morec = map (fun d => cdig (ser d)) more /\
+    map g_no more = map (fun i => (latest_generation_number (lh_gens x) + 1 + N.of_nat i)%N) (seq 0 (length more)).
+Proof. exact ext_prefix. Qed.
+Print Assumptions C06_ext_means.
+Theorem C06_one_more_means : forall C cdig ser hs w hs', one_more C cdig ser hs w hs' <->
+  hs' = map (fun x => match find (fun e => path_eqb (fst e) (lh_root x)) w with
+                      | Some e => mkLhist (lh_root x) (lh_parent x) (lh_gens x ++ [snd e])
+                                          (lh_chain x ++ [mkCentry (g_no (snd e)) (g_no (snd e)) (cdig (ser (snd e)))]) true
+                      | None => x
+                      end) hs /\
+  forall r doc, In (r, doc) w -> exists x, In x hs /\ lh_root x = r /\ g_no doc = (latest_generation_number (lh_gens x) + 1)%N.
+Proof. intros. reflexivity. Qed.
+(* replacing one history value in a tree changes exactly that history in the loaded list *)
+Theorem C06_reload_after_one_history_changed : forall C cdig h kids k newh l,
+  wf_tree C (Dir h kids) -> load C cdig (Dir h kids) = inl l -> get_hist C (Dir h kids) k <> None ->
+  check_chain C cdig newh = None ->
+  load C cdig (set_hist C k newh (Dir h kids)) = inl (map (updl C k newh) l).
+Proof. exact reload_set_hist. Qed.
+Print Assumptions C06_reload_after_one_history_changed.
+
+(* non-vacuity of the nested statement: a root history and two nested ones (one generation each), one file; the run
+   writes into all three and the next load shows generations 1, 2 in each *)
+Definition c06_g1 : gen := mkGen 1 [] None [] [] InPlace.
+Definition c06_h : hist N := mkHist N [mkMfile N 1 1%N c06_g1] (Some [mkCentry 1 1 [1%N]]).
+Definition c06_t : node N := Dir (Some c06_h) [([97%N], Dir (Some c06_h) [([102%N], @File N [7%N])]); ([98%N], Dir (Some c06_h) [])].
+Example C06_nested_example :
+  let r := create_folder (fun _ b => b) (fun _ _ => false) N (fun c => [c]) (fun g => (g_no g + 10)%N) c06_t [Md5] false false [] [] in
+  wf_tree N c06_t /\ o_outcome (snd r) = Exit 0 /\ map fst (o_written (snd r)) = [[[97%N]]; [[98%N]]; []] /\
+  match load N (fun c => [c]) c06_t, load N (fun c => [c]) (fst r) with
+  | inl l, inl l' => map (fun x => (lh_root x, map g_no (lh_gens x))) l = [([[97%N]], [1%N]); ([[98%N]], [1%N]); ([], [1%N])] /\
+                     map (fun x => (lh_root x, map g_no (lh_gens x))) l' = [([[97%N]], [1%N; 2%N]); ([[98%N]], [1%N; 2%N]); ([], [1%N; 2%N])]
+  | _, _ => False
+  end.
+Proof.
+  cbn zeta. split.
+  { unfold c06_t. constructor; [cbn; repeat constructor; cbn; intuition discriminate|].
+    repeat constructor; cbn; intuition. }
+  vm_compute. repeat split.
+Qed.
 
 (* non-vacuity *)
 Example C06_three_commits :
